@@ -26,7 +26,11 @@ Triples == {Bin("AND", p, Bin("=", z, [k |-> "num", n |-> "1"])) : p \in {q \in 
           \cup {[k |-> "in", a |-> x, items |-> <<y, z>>] : x \in Core, y \in {Fld("u", "a"), Fld("t", "b")}, z \in {Fld("v", "a"), Fld("t", "a")}}
           \cup {[k |-> "between", a |-> x, lo |-> y, hi |-> Fld("v", "a")] : x \in Core, y \in Core}
           \cup {[k |-> "case", w |-> Bin("=", x, y), t |-> Fld("v", "b"), e |-> Fld("t", "a")] : x \in Core, y \in Core}
-Trees == Pairs \cup Triples
+\* two structurally identical conditions that differ in nothing but the table (alias / schema) of their column
+Twins == {Bin("AND", Bin("=", Fld(x, c), [k |-> "num", n |-> "1"]), Bin("=", Fld(y, c), [k |-> "num", n |-> "1"])) :
+              x \in {"s1i", "e1", "t"}, y \in {"s2i", "e2", "u"}, c \in Cols}
+         \cup {Bin("+", Bin("+", Fld(x, "a"), [k |-> "num", n |-> "1"]), Bin("+", Fld(y, "a"), [k |-> "num", n |-> "1"])) : x \in {"s1i", "e1"}, y \in {"s2i", "e2"}}
+Trees == Pairs \cup Triples \cup Twins
 
 VARIABLES kind, item
 Init == \/ kind = "variant" /\ item \in Variants
